@@ -60,6 +60,10 @@ func driveTimerPanic(opt *Options) error {
 	if n <= 0 {
 		n = 6
 	}
+	onlyDefaults := opt.Extra["only"] == "defaults" // just the package-as-it-comes-up child (run first, on a quiet host)
+	if onlyDefaults {
+		n = 0
+	}
 	type res struct {
 		evs  []map[string]any
 		died bool
@@ -103,7 +107,7 @@ func driveTimerPanic(opt *Options) error {
 	}
 	wg.Wait()
 	// fresh processes whose very FIRST Calls come from many goroutines at once (whatever the package sets up on first use)
-	{
+	if !onlyDefaults {
 		const kids = 10
 		fu := make([]res, kids)
 		var fwg sync.WaitGroup
